@@ -16,11 +16,18 @@
   xdiagram  := <dims dom> <nlayers> xlayer*
     xeval <xdiagram>                     -> ok <n> poly*      evaluation of a diagram with bubbles
     xgrad <checksFS> <i> <xdiagram>      -> ok <terms> <n> poly*   eval of d.grad(x_i) (Bubble.grad = chain rule)
+  sequences (Model/ParamSeq.lean: the diagram with its redundant copies boxes / offsets / layers):
+    psubs2eval <i> <poly q> <j> <poly r> <pdiagram> -> ok <n> poly*   eval (d.subs(x_i,q).subs(x_j,r))
+    psliceeval <i> <poly q> <a> <b> <pdiagram>      -> ok <n> poly*   eval (d.subs(x_i,q)[a:b])
+    pviews <i> <poly q> <pdiagram>       -> ok <k> (<n> poly*)* <k> (<n> poly*)* <k> <offset>*
+                                            data of the boxes of d.subs(x_i,q) read from .boxes, from
+                                            .layers, and its offsets
     csubs <fixC> <fixD> <fixH> <cls> <hit> <hasData> <hasSyms> <kind> <nin> <nout> <dagger> <mixed 0|1|2>
                                          -> ok <kind> <nin> <nout> <dagger> <mixed> | err exc:AttributeError
 -/
 import Driver.Codec
 import Model.Param
+import Model.ParamSeq
 
 namespace DV.ParamCmd
 open DV DV.Codec DV.Param
@@ -134,6 +141,25 @@ def handle (cmd : String) (rest : List String) : Option String :=
       fun (i, q, d) => "ok " ++ pMat (d.subs i q).eval (prod d.dom) (prod d.cod)
   | "pevalsubs" => some <| run (do let i ← nat; let q ← poly; let d ← pdiagram; pure (i, q, d)) rest
       fun (i, q, d) => "ok " ++ pMat (fun a b => Poly.subst1 i q (d.eval a b)) (prod d.dom) (prod d.cod)
+  | "psubs2eval" => some <| run (do
+        let i ← nat; let q ← poly; let j ← nat; let r ← poly; let d ← pdiagram; pure (i, q, j, r, d)) rest
+      fun (i, q, j, r, d) =>
+        match (RDiagram.ofLayers d.dom d.layers).subs (Poly.subst1 i q) >>= RDiagram.subs (Poly.subst1 j r) with
+        | .ok s => "ok " ++ pMat s.eval (prod s.dom) (prod s.cod)
+        | .error e => s!"err {e}"
+  | "psliceeval" => some <| run (do
+        let i ← nat; let q ← poly; let a ← nat; let b ← nat; let d ← pdiagram; pure (i, q, a, b, d)) rest
+      fun (i, q, a, b, d) =>
+        match ((RDiagram.ofLayers d.dom d.layers).subs (Poly.subst1 i q)).map (RDiagram.slice a b) with
+        | .ok s => "ok " ++ pMat s.eval (prod s.dom) (prod s.cod)
+        | .error e => s!"err {e}"
+  | "pviews" => some <| run (do let i ← nat; let q ← poly; let d ← pdiagram; pure (i, q, d)) rest
+      fun (i, q, d) =>
+        match (RDiagram.ofLayers d.dom d.layers).subs (Poly.subst1 i q) with
+        | .ok s => "ok " ++ pList (fun (b : PBox Poly) => pList pPoly b.data) s.boxes ++ " "
+            ++ pList (fun (l : PLayer Poly) => pList pPoly l.box.data) s.layers ++ " "
+            ++ pList toString s.offsets
+        | .error e => s!"err {e}"
   | "pgrad" => some <| run (do let f ← bool; let i ← nat; let d ← pdiagram; pure (f, i, d)) rest
       fun (f, i, d) =>
         let g := d.grad f i
